@@ -150,6 +150,7 @@ def check_protos(f, mod, p, hit, tag):
 
 
 _SIGS = [
+    ("castlike_below_opset_15", r"No Op registered for CastLike with domain_version of (9|1[0-4])\b"),
     ("function_opset_incompatible", r"Opset import for domain\s+in function op \w+\s*is not compatible with the version imported by model"),
     ("attr_ref_in_main_graph", r"Attribute 'value_\w+' expect|ref_attr_name|attribute.*reference|Attribute.*refer"),
     ("missing_opset_import", r"No opset import for domain|is used but not imported"),
